@@ -6,7 +6,7 @@
   `Info.update` assigned — in THIS solve, on this solver's data — to the recorded iterate that is
   un-scaled into the solution: the last pass's, or after an insufficient-progress rollback the
   last pass's but one (the saved `prev_*` scalars and `prev_vars` are a pair computed from one
-  iterate: invariant `PInv` of the loop, the scalar half of `LInv.prev`).
+  iterate: invariant `RecInv` of the loop, the scalar half of `LInv.prev`).
 
   `report_not_stale`: nothing of what an earlier `solve()` left in `info` (except the `prev_*`
   fields, which `C04.full_no_stale_prev` shows are never read before they are rewritten) or in
@@ -37,7 +37,7 @@ def RecOK (d : ProblemData α) (r : PassRec α) : Prop :=
 
 /-- scalar half of the loop invariant: once a step has been taken, the `prev_*` fields are the
 figures recorded by the last pass; every record of the trajectory is `RecOK` -/
-structure PInv (L : LoopSt α) : Prop where
+structure RecInv (L : LoopSt α) : Prop where
   prev : L.iter = 0 ∨ ∃ r, L.traj.getLast? = some r ∧ PrevIs L.S.info r.info
   recs : ∀ r ∈ L.traj, RecOK L.S.data r
 
@@ -67,8 +67,8 @@ theorem mem_concat_cases {β : Type} {l : List β} {x r : β} (h : r ∈ l ++ [x
   · exact Or.inl h
   · exact Or.inr (by simpa using h)
 
-theorem pass_cont_pinv {st : Settings α} {L L' : LoopSt α} (hP : PInv L)
-    (hp : pass st L = .ok (true, L')) : PInv L' := by
+theorem pass_cont_pinv {st : Settings α} {L L' : LoopSt α} (hP : RecInv L)
+    (hp : pass st L = .ok (true, L')) : RecInv L' := by
   have hdata := pass_data hp
   cases pass_inv hp with
   | step residuals mu info1 scl k a pv htop hdone hsc hok hk hkok ha hsmall hpv =>
@@ -88,12 +88,12 @@ theorem pass_cont_pinv {st : Settings α} {L L' : LoopSt α} (hP : PInv L)
       · rw [hr]
         exact recOK_data ⟨L.S, L.iter, residuals, mu, rfl, rfl, htop, rfl, rfl⟩ hdata
 
-theorem Reach.pinv {st : Settings α} {L L' : LoopSt α} (h : Reach st L L') (hP : PInv L) : PInv L' := by
+theorem Reach.pinv {st : Settings α} {L L' : LoopSt α} (h : Reach st L L') (hP : RecInv L) : RecInv L' := by
   induction h with
   | refl => exact hP
   | step hp _ ih => exact ih (pass_cont_pinv hP hp)
 
-theorem pass_brk_pexit {st : Settings α} {L L' : LoopSt α} (hI : LInv st L) (hP : PInv L)
+theorem pass_brk_pexit {st : Settings α} {L L' : LoopSt α} (hI : LInv st L) (hP : RecInv L)
     (hp : pass st L = .ok (false, L')) : PExit L' := by
   have hdata := pass_data hp
   cases pass_inv hp with
@@ -224,7 +224,7 @@ theorem pass_brk_pexit {st : Settings α} {L L' : LoopSt α} (hI : LInv st L) (h
       · show k.S.residuals.dot_qx = residuals.dot_qx
         rw [e7]
 
-theorem initLoopSt_pinv (S : SolverSt α) : PInv (initLoopSt S) :=
+theorem initLoopSt_pinv (S : SolverSt α) : RecInv (initLoopSt S) :=
   ⟨Or.inl rfl, fun r hr => by cases hr⟩
 
 /-- `runSolve` leaves the loop in a state satisfying `PExit`, on the data it started with -/
@@ -303,6 +303,7 @@ theorem figures_of_returned_iterate {S : Solver α} {st : Settings α} {r : Solv
   unfold Solver.solve at h
   obtain ⟨L, hL, h⟩ := bind_ok_inv h
   obtain ⟨q, hq, h⟩ := bind_ok_inv h
+  obtain ⟨dN, hdN, h⟩ := bind_ok_inv h
   cases h
   unfold finish at hq
   obtain ⟨u, hu, hq⟩ := bind_ok_inv hq
@@ -342,6 +343,7 @@ theorem final_status_is_postProcess {S : Solver α} {st : Settings α} {r : Solv
   unfold Solver.solve at h
   obtain ⟨L, hL, h⟩ := bind_ok_inv h
   obtain ⟨q, hq, h⟩ := bind_ok_inv h
+  obtain ⟨dN, hdN, h⟩ := bind_ok_inv h
   cases h
   unfold finish at hq
   obtain ⟨u, hu, hq⟩ := bind_ok_inv hq
